@@ -20,7 +20,9 @@ def run(ctx):
         mism = cc.coq_compare(ctx, cases, "toConfig/sortedCopy")
     st = state["stats"]
     need = ["accepted", "rejected", "namespace_with_two_or_more_pools", "pool_with_three_or_more_bgp_advs",
-            "sortedcopy_unsorted_input_3plus", "reconciler_runs"]
+            "sortedcopy_unsorted_input_3plus", "reconciler_runs", "reconciler_runs_with_two_pools_in_one_namespace",
+            "dualclash_lengths_differ_in_ipv4_only_rejected", "dualclash_lengths_differ_in_ipv6_only_rejected",
+            "dualclash_lengths_differ_in_both_accepted", "dualclash_lengths_differ_in_none_rejected"]
     if cases and not ctx.replay_in and not ctx.violations and not ctx.corr_broken and any(st.get(k, 0) == 0 for k in need):
         raise Exception("generator degenerate: %r" % st)
 
@@ -45,6 +47,6 @@ def run(ctx):
     ctx.assumptions += ["the snapshot handed to toConfig is what the API server listed; informer cache consistency is not modelled"]
     ctx.finish(len(cases), distinct,
                "snapshots with 3-6 objects per kind (pools with CIDR/range/mapped notations and namespace pinning, L2/BGP advertisements with pool and node selectors, nodes, namespaces, peers, BFD profiles, communities; 30% with invalid non-pool objects and the native/FRR validators), "
-               "each recomputed 50x and under kind-wise shuffles with reflect.DeepEqual; sortedCopy on shuffled pool lists; 6 reconciler runs on a fake API server; "
+               "each recomputed 50x and under kind-wise shuffles with reflect.DeepEqual; every 10th snapshot a dual-stack pool with two advertisements of different local preference whose aggregation lengths differ in no / one / both families (acceptance must be repeatable); sortedCopy on shuffled pool lists; 7 runs of the real ConfigReconciler and PoolReconciler (two generations each) on a fake API server whose List order is reversed/shuffled between reconciles; "
                "non-trivial = toConfig case with at least 2 pools; distinct by JSON of the snapshot",
                [c["in"] for c in tc[:3]], search=search)
